@@ -35,10 +35,12 @@ ASSUMPTIONS = [
     "round trip is asserted for unit multipliers only (kilobase text cannot express scaled distances)",
 ]
 
-PROFILE_POOL = ["android", "nota", "cdsX", "minimumA", "RULEx", "AS1", "2-Hacid", "p_1", "Orf-7", "ks"]
-RULE_NAMES = ["T1PKS", "NRPS-like", "r2", "rule_b", "ectoine", "x-1", "Nota", "ORs"]
+# every shape of the documented identifier grammar {[a-zA-Z0-9_-]}*[a-zA-Z]{[a-zA-Z0-9_-]}*: digits, hyphens and
+# underscores may all precede the first letter
+PROFILE_POOL = ["android", "nota", "cdsX", "minimumA", "RULEx", "AS1", "2-Hacid", "p_1", "Orf-7", "ks", "3_oxo", "_tail", "0-_x", "-_-9z"]
+RULE_NAMES = ["T1PKS", "NRPS-like", "r2", "rule_b", "ectoine", "x-1", "Nota", "ORs", "1_core", "_r"]
 CATEGORIES = ["PKS", "NRPS", "other", "cat-1"]
-ALIAS_NAMES = ["ALIAS1", "grp-x", "lst_2", "shared"]
+ALIAS_NAMES = ["ALIAS1", "grp-x", "lst_2", "shared", "_al", "7_b"]
 WORDS = ["Type", "I", "polyketide", "synthase", "42", "like", "test-word", "x_y"]
 MULTIPLIERS = [[1.0, 1.0], [1.0, 1.5], [0.5, 2.0], [2.5, 0.3]]
 
